@@ -180,6 +180,62 @@ def specOfQuery (q : Query) : Option SQuery :=
   let s : SQuery := ⟨splitDots q.name, q.type, q.cls⟩
   if s.legal then some s else none
 
+/-! ### reference encoder WITH compression (RFC 1035 §4.1.4): the usual suffix table -/
+
+/-- names already written (every suffix that starts at a label) with their offset from the start of the message -/
+abbrev CTable := List (Name × Nat)
+
+def CTable.lookup' (t : CTable) (n : Name) : Option Nat :=
+  match t with
+  | [] => none
+  | (k, v) :: r => if k = n then some v else CTable.lookup' r n
+
+/-- encode `n` at records offset `pos`: literal labels until a suffix is in the table, then a pointer to it -/
+def compressName (t : CTable) (pos : Nat) : Name → Bytes × CTable
+  | [] => ([0], t)
+  | l :: r =>
+    match t.lookup' (l :: r) with
+    | some off => ([UInt8.ofNat (192 + off / 256), UInt8.ofNat (off % 256)], t)
+    | none =>
+      let t' := if pos + 12 < 16384 then t ++ [(l :: r, pos + 12)] else t
+      let (rest, t'') := compressName t' (pos + 1 + l.length) r
+      (UInt8.ofNat l.length :: l ++ rest, t'')
+
+def compressData (t : CTable) (pos : Nat) : SData → Bytes × CTable
+  | .a addr => (addr, t)
+  | .aaaa addr => (addr, t)
+  | .raw b => (b, t)
+  | .name n => compressName t pos n
+  | .mx p n => let (b, t') := compressName t (pos + 2) n; (be16 p ++ b, t')
+  | .soa m r tail =>
+    let (b1, t1) := compressName t pos m
+    let (b2, t2) := compressName t1 (pos + b1.length) r
+    (b1 ++ b2 ++ tail, t2)
+
+def compressRec (t : CTable) (pos : Nat) (r : SRec) : Bytes × CTable :=
+  let (o, t1) := compressName t pos r.owner
+  let (d, t2) := compressData t1 (pos + o.length + 10) r.data
+  (o ++ be16 r.type ++ be16 r.cls ++ be32 r.ttl ++ be16 d.length ++ d, t2)
+
+def compressQuery (t : CTable) (pos : Nat) (q : SQuery) : Bytes × CTable :=
+  let (o, t1) := compressName t pos q.name
+  (o ++ be16 q.type ++ be16 q.cls, t1)
+
+def compressList {α} (f : CTable → Nat → α → Bytes × CTable) (t : CTable) (pos : Nat) : List α → Bytes × CTable
+  | [] => ([], t)
+  | x :: xs =>
+    let (b, t1) := f t pos x
+    let (bs, t2) := compressList f t1 (pos + b.length) xs
+    (b ++ bs, t2)
+
+/-- reference encoder with compression of a whole message -/
+def refCompress (hdr : Bytes) (s : Sections) : Bytes :=
+  let (q, t1) := compressList compressQuery [] 0 s.qs
+  let (an, t2) := compressList compressRec t1 q.length s.an
+  let (au, t3) := compressList compressRec t2 (q.length + an.length) s.au
+  let (ad, _) := compressList compressRec t3 (q.length + an.length + au.length) s.ad
+  hdr ++ be16 s.qs.length ++ be16 s.an.length ++ be16 s.au.length ++ be16 s.ad.length ++ q ++ an ++ au ++ ad
+
 /-! ### RFC 1035 §4.1.4 name resolution inside a message (`recs` = the message without its 12-byte header) -/
 
 /-- `Resolves recs p n j`: the name starting at offset `p` of `recs` denotes `n`, following `j` pointers. -/
